@@ -145,7 +145,7 @@ func (g *fileGen) items(max int) []*Item {
 // (AutoVar commands in conditions included, unless their result var is an argument).
 func (g *fileGen) decorate(b *Block) {
 	walkCmdsOrdered(b, func(c *Cmd) {
-		if c.Name == "end" || c.Name == "return" || c.Name == "goto" {
+		if c.Name == "end" || c.Name == "return" || c.Name == "goto" || strings.HasPrefix(c.Name, "goto_if_") {
 			return
 		}
 		if spec, ok := g.cfg.CF.Auto[c.Name]; ok && spec.ArgPos != nil {
